@@ -817,8 +817,16 @@ func TestAndXRoundtrip(t *testing.T) {
 	vf.Rapid(s, len(names)*per, func(t *rapid.T) andxCase {
 		name := names[(idx/per)%len(names)]
 		idx++
-		return andxCase{genCase(t, name, smbgen.Options{MaxBytes: 16}), rapid.Byte().Draw(t, "andxCommand"), rapid.Byte().Draw(t, "andxReserved"), rapid.Uint16().Draw(t, "andxOffset")}
-	}, checkAndXRoundtrip, func(c andxCase) bool { return c.Reserved != 0 && c.Offset != 0 })
+		c := andxCase{genCase(t, name, smbgen.Options{MaxBytes: 16}), rapid.Byte().Draw(t, "andxCommand"), rapid.Byte().Draw(t, "andxReserved"), rapid.Uint16().Draw(t, "andxOffset")}
+		if rapid.IntRange(0, 3).Draw(t, "special") == 0 {
+			// the values of a block that was never filled in or that ends a chain, and the extremes: explicit zeros
+			// are field values like any others (command 0x00 is SMB_COM_CREATE_DIRECTORY)
+			c.Command = rapid.SampledFrom([]byte{0x00, 0x00, 0x00, 0x01, 0xFE, 0xFF, 0xFF}).Draw(t, "andxCommandSpecial")
+			c.Reserved = rapid.SampledFrom([]byte{0x00, 0x00, 0x01, 0xFF}).Draw(t, "andxReservedSpecial")
+			c.Offset = rapid.SampledFrom([]uint16{0, 0, 0, 1, 0x00FF, 0x0100, 0x8000, 0xFFFF}).Draw(t, "andxOffsetSpecial")
+		}
+		return c
+	}, checkAndXRoundtrip, func(c andxCase) bool { return c.Reserved != 0 && c.Offset != 0 || c.Command == 0 || c.Command == 0xFF })
 }
 
 // ---- lists of 255, 256 and 300 elements ------------------------------------------------------------------------
